@@ -72,7 +72,7 @@ theorem routeCurly_eq_sel (E : ReEnv) (cfg : Config) (req : Req) :
 
 /-- a service of the model as CurlyRouter reads it -/
 def genSvcC (req : Req) (s : Service) : ImpGen.GoWebService :=
-  { pathExpr := some { LiteralCount := 0, VarCount := 0, Matcher := fun _ => [], tokens := tokenize s.rootPath },
+  { pathExpr := some { LiteralCount := 0, VarNames := [], VarCount := 0, Matcher := fun _ => [], tokens := tokenize s.rootPath },
     routes := s.built.map (genRoute req) }
 
 def genCandC (req : Req) (c : Curly.Cand) : ImpGen.GoCurlyRoute :=
